@@ -1,0 +1,253 @@
+//go:build verif
+
+package main
+
+import (
+	"mltwist/internal/state/memory"
+	"mltwist/pkg/expr"
+	"mltwist/pkg/model"
+	"strings"
+)
+
+// Layered memory histories (property C16), one history per line.
+//
+//	overlay <k> <begin1> <hex1> ... <begink> <hexk> <n> op1 ... opn
+//
+// builds memory.NewOverlay(memory.NewBytes(blocks), memory.NewSparse()) and runs
+//
+//	st <addr> <w> E     Store      answer "-"
+//	ld <addr> <w>       Load       answer "some E" / "none"
+//	ms <addr> <w>       Missing    answer interval list
+//	bl                  Blocks     answer interval list
+//
+// on it. The result is "err:overlap" if NewBytes fails, otherwise the answers
+// joined by " | " (a panicking operation answers "PANIC" and ends the history)
+// and one last field: the blocks and the content of every base memory are
+// printed before the history and again after it (dumpMem); "base:unchanged"
+// if the prints are equal, "base:changed" otherwise.
+//
+//	layers <mem> <n> op1 ... opn
+//
+// is the same for an arbitrary stack of memories
+//
+//	<mem> ::= B <k> <begin1> <hex1> ...      NewBytes
+//	        | S <m> <addr> <w> E ...         NewSparse followed by m stores
+//	        | O <mem> <mem>                  NewOverlay(base, overlay)
+//
+// where the bases of all Overlay values in the stack are monitored.
+//
+//	memmap <n> op1 ... opn        on a fresh memory.MemMap
+//	    st <key> <addr> <w> E | ld <key> <addr> <w> | ms <key> <addr> <w> | bl <key>
+
+type setupFailure string
+
+// parseMem builds a memory from its description; the bases of all overlays
+// are appended to bases.
+func parseMem(t *tokens, bases *[]memory.Memory) memory.Memory {
+	switch kind := t.next(); kind {
+	case "B":
+		k := t.int()
+		blocks := make([]memory.ByteBlock, 0, k)
+		for i := 0; i < k; i++ {
+			begin := model.Addr(t.uint())
+			blocks = append(blocks, vBlock{begin: begin, bs: t.hex()})
+		}
+		m, err := memory.NewBytes(blocks)
+		if err != nil {
+			panic(setupFailure("err:overlap"))
+		}
+		return m
+	case "S":
+		n := t.int()
+		m := memory.NewSparse()
+		type st struct {
+			addr model.Addr
+			w    expr.Width
+			ex   expr.Expr
+		}
+		sts := make([]st, 0, n)
+		for i := 0; i < n; i++ {
+			a := model.Addr(t.uint())
+			w := t.width()
+			sts = append(sts, st{addr: a, w: w, ex: t.expr()})
+		}
+		for _, s := range sts {
+			m.Store(s.addr, s.ex, s.w)
+		}
+		return m
+	case "O":
+		base := parseMem(t, bases)
+		over := parseMem(t, bases)
+		*bases = append(*bases, base)
+		return memory.NewOverlay(base, over)
+	default:
+		panic(parseError("bad memory kind " + kind))
+	}
+}
+
+type memOp struct {
+	kind string
+	addr model.Addr
+	w    expr.Width
+	ex   expr.Expr
+}
+
+func parseMemOps(t *tokens) []memOp {
+	n := t.int()
+	ops := make([]memOp, 0, n)
+	for i := 0; i < n; i++ {
+		o := memOp{kind: t.next()}
+		switch o.kind {
+		case "st":
+			o.addr = model.Addr(t.uint())
+			o.w = t.width()
+			o.ex = t.expr()
+		case "ld", "ms":
+			o.addr = model.Addr(t.uint())
+			o.w = t.width()
+		case "bl":
+		default:
+			panic(parseError("bad memory op " + o.kind))
+		}
+		ops = append(ops, o)
+	}
+	return ops
+}
+
+func runMemOp(m memory.Memory, o memOp) string {
+	return protect(func() string {
+		switch o.kind {
+		case "st":
+			m.Store(o.addr, o.ex, o.w)
+			return "-"
+		case "ld":
+			return fmtLoaded(m.Load(o.addr, o.w))
+		case "ms":
+			return fmtSparseIntervals(m.Missing(o.addr, o.w))
+		default:
+			return fmtSparseIntervals(m.Blocks())
+		}
+	})
+}
+
+// runLayers: build (already parsed lazily by build), run, monitor the bases.
+func runLayers(t *tokens, build func(bases *[]memory.Memory) memory.Memory) (res string) {
+	var bases []memory.Memory
+	var m memory.Memory
+	var failure string
+	func() {
+		defer func() {
+			if r := recover(); r != nil {
+				switch v := r.(type) {
+				case parseError:
+					panic(v)
+				case setupFailure:
+					failure = string(v)
+				default:
+					failure = "PANIC"
+				}
+			}
+		}()
+		m = build(&bases)
+	}()
+	if failure != "" {
+		t.rest()
+		return failure
+	}
+	ops := parseMemOps(t)
+
+	dumpBases := func() string {
+		return protect(func() string {
+			parts := make([]string, 0, len(bases))
+			for _, b := range bases {
+				parts = append(parts, dumpMem(b))
+			}
+			return strings.Join(parts, " ; ")
+		})
+	}
+
+	before := dumpBases()
+	answers := make([]string, 0, len(ops)+1)
+	for _, o := range ops {
+		a := runMemOp(m, o)
+		answers = append(answers, a)
+		if a == "PANIC" {
+			return strings.Join(answers, " | ")
+		}
+	}
+	if after := dumpBases(); after == before && after != "PANIC" {
+		answers = append(answers, "base:unchanged")
+	} else {
+		answers = append(answers, "base:changed")
+	}
+	return strings.Join(answers, " | ")
+}
+
+func memmapOp(m memory.MemMap, t *tokens) string {
+	switch op := t.next(); op {
+	case "st":
+		k := t.key()
+		a := model.Addr(t.uint())
+		w := t.width()
+		ex := t.expr()
+		return protect(func() string {
+			m.Store(k, a, ex, w)
+			return "-"
+		})
+	case "ld":
+		k := t.key()
+		a := model.Addr(t.uint())
+		w := t.width()
+		return protect(func() string { return fmtLoaded(m.Load(k, a, w)) })
+	case "ms":
+		k := t.key()
+		a := model.Addr(t.uint())
+		w := t.width()
+		return protect(func() string { return fmtSparseIntervals(m.Missing(k, a, w)) })
+	case "bl":
+		k := t.key()
+		return protect(func() string { return fmtSparseIntervals(m.Blocks(k)) })
+	default:
+		panic(parseError("bad memmap op " + op))
+	}
+}
+
+func init() {
+	register("overlay", func(t *tokens) string {
+		return runLayers(t, func(bases *[]memory.Memory) memory.Memory {
+			k := t.int()
+			blocks := make([]memory.ByteBlock, 0, k)
+			for i := 0; i < k; i++ {
+				begin := model.Addr(t.uint())
+				blocks = append(blocks, vBlock{begin: begin, bs: t.hex()})
+			}
+			base, err := memory.NewBytes(blocks)
+			if err != nil {
+				panic(setupFailure("err:overlap"))
+			}
+			*bases = append(*bases, base)
+			return memory.NewOverlay(base, memory.NewSparse())
+		})
+	})
+
+	register("layers", func(t *tokens) string {
+		return runLayers(t, func(bases *[]memory.Memory) memory.Memory {
+			return parseMem(t, bases)
+		})
+	})
+
+	register("memmap", func(t *tokens) string {
+		n := t.int()
+		m := make(memory.MemMap, 1)
+		answers := make([]string, 0, n)
+		for i := 0; i < n; i++ {
+			a := memmapOp(m, t)
+			answers = append(answers, a)
+			if a == "PANIC" {
+				t.rest()
+				break
+			}
+		}
+		return strings.Join(answers, " | ")
+	})
+}
